@@ -80,6 +80,10 @@ func (g *G) genPnftMsg() (sdk.Msg, string) {
 		}
 		return g.addrString("receiver-spelling", g.acct("receiver"))
 	}
+	if kind == "create" && len(m.DeletedDenoms) > 0 && g.chance("recreate-deleted", 35) {
+		// an identifier that existed once, possibly under another owner
+		denom = pick(g, "deleted-denom", sortedKeys(m.DeletedDenoms))
+	}
 	switch kind {
 	case "create":
 		return &pnfttypes.MsgCreateDenomRequest{Id: denom, Name: pick(g, "name", []string{"n", "Name"}), Symbol: "S",
@@ -115,6 +119,19 @@ func (g *G) genPnftMsg() (sdk.Msg, string) {
 			ownerAct(d.OwnerAddr)
 		}
 		id := pick(g, "token-id", ids)
+		if g.chance("remint-burned", 20) {
+			// a token id that was burned in this denom earlier
+			var burned []string
+			for k := range m.BurnedTokens {
+				if k.Denom == denom {
+					burned = append(burned, k.ID)
+				}
+			}
+			if len(burned) > 0 {
+				sortStrings(burned)
+				id = pick(g, "burned-token", burned)
+			}
+		}
 		cr := g.bech(actor)
 		if d != nil && g.chance("same-spelling", 90) && w.AcctIndex(canonStr(d.Owner)) == actor {
 			cr = d.Owner
